@@ -32,6 +32,9 @@ pub struct Impl {
     pub log: Rc<RefCell<Vec<(char, Cell)>>>,
     /// force a collection (with the default audit) before every top-level form given to `eval`
     pub collect_before_each_form: bool,
+    /// give every form to the VM as text (`Vm::eval_text` of its written form), the way the REPL and the web front
+    /// end do, instead of as a datum (`Vm::eval`)
+    pub text_route: bool,
 }
 
 #[derive(Debug, Clone, PartialEq)]
@@ -91,7 +94,7 @@ impl Impl {
         let log = Rc::new(RefCell::new(vec![]));
         let mut vm = Vm::new();
         vm.set_system_interface(Box::new(Recorder { log: log.clone() }));
-        Impl { vm, log, collect_before_each_form: false }
+        Impl { vm, log, collect_before_each_form: false, text_route: false }
     }
 
     pub fn eval(&mut self, form: &Cell) -> ImplOut {
@@ -101,7 +104,15 @@ impl Impl {
                 return ImplOut::Panic(panic_message(&e));
             }
         }
-        let r = std::panic::catch_unwind(std::panic::AssertUnwindSafe(|| vm.eval(form)));
+        let text_route = self.text_route;
+        let r = std::panic::catch_unwind(std::panic::AssertUnwindSafe(|| {
+            if text_route {
+                let text = format!("{:#}", form);
+                vm.eval_text(&text).map(|(c, _)| c)
+            } else {
+                vm.eval(form)
+            }
+        }));
         match r {
             Err(e) => ImplOut::Panic(panic_message(&e)),
             Ok(Ok(c)) => ImplOut::Value(c),
